@@ -47,3 +47,7 @@ pub use errors::{ErrorKind, ProtobufError};
 pub use field::{Field, FieldValue, Fields};
 pub use message::DecodeMessage;
 pub use value::{FieldTypes, OwnedValues, ReadPos, ReadValue, ValueReader};
+
+#[cfg(kani)]
+#[path = "/verif/kani/rten-onnx/protobuf.rs"]
+mod verif_kani;
